@@ -562,6 +562,7 @@ func first(a, _ []byte) []byte { return a }
 
 //@ spec NodeOK(o) = implies(atype(o) == typeid(node4), Inv4(as(node4, o)) && as(node4, o).childrenLen >= 2) && implies(atype(o) == typeid(node16), Inv16(as(node16, o)) && as(node16, o).childrenLen >= 4) && implies(atype(o) == typeid(node48), Inv48(as(node48, o)) && as(node48, o).childrenLen >= 13) && implies(atype(o) == typeid(node256), Inv256(as(node256, o)) && cntP(as(node256, o).children, 256) >= 38)
 //@ spec rootOK(r) = r.pointer == nil || okRef(r)
+//@ spec rootLive(r) = r.pointer == nil || !pooled(r.pointer)
 
 //@ spec LeafOK_alpha(o) = as(alphaLeafNode, o).key.obj != nil && allocated(as(alphaLeafNode, o).key.obj) && 0 <= as(alphaLeafNode, o).key.idx && as(alphaLeafNode, o).key.idx + as(alphaLeafNode, o).len <= blen(as(alphaLeafNode, o).key.obj)
 //@ spec HeapOK_alpha() = forallref(o, implies(inT(o) && allocated(o) && o != nil && !pooled(o), NodeOK(o) && implies(atype(o) == leafT(), LeafOK_alpha(o))))
@@ -617,15 +618,21 @@ func first(a, _ []byte) []byte { return a }
 // shared descent helpers need.
 //@ spec HeapOKN() = forallref(o, implies(inT(o) && allocated(o) && o != nil && !pooled(o), NodeOK(o)))
 //@ spec isLeafRef(r) = r.tag == 4
+// LinkedLive: no live node references a pooled (released) node. It follows from the
+// unique-parent ownership invariant of the tree, which is not verified at this rung: it is
+// ASSUMED on entry of every tree operation and is not re-established by Insert/Delete.
+//@ spec childrenLive(o) = implies(atype(o) == typeid(node4), forall(i, 0, 4, implies(i < as(node4, o).childrenLen, !pooled(as(node4, o).children[i].pointer)))) && implies(atype(o) == typeid(node16), forall(i, 0, 16, implies(i < as(node16, o).childrenLen, !pooled(as(node16, o).children[i].pointer)))) && implies(atype(o) == typeid(node48), forall(j, 0, 48, implies(as(node48, o).children[j].pointer != nil, !pooled(as(node48, o).children[j].pointer)))) && implies(atype(o) == typeid(node256), forall(x, 0, 256, implies(as(node256, o).children[x].pointer != nil, !pooled(as(node256, o).children[x].pointer))))
+//@ spec LinkedLive() = forallref(o, implies(inT(o) && allocated(o) && o != nil && !pooled(o), childrenLive(o)))
+//@ spec liveRef(r) = r.pointer == nil || (okRef(r) && !pooled(r.pointer))
 
 //@ func minimum
-//@   requires ref.pointer == nil || okRef(ref)
-//@   requires HeapOKN()
+//@   requires liveRef(ref)
+//@   requires HeapOKN() && LinkedLive()
 //@   ensures[nil_iff_empty] (result == nil) == (ref.pointer == nil)
 //@   ensures[leaf] implies(result != nil, inT(result) && atype(result) == leafT())
 //@   assigns nothing
 //@   loop 1 (ref)
-//@     invariant ref.pointer == nil || okRef(ref)
+//@     invariant liveRef(ref)
 //@   loop 2 (idx)
 //@     invariant 0 <= idx && idx <= 256 && cntNZ(n48.keys, idx) == 0
 //@     decreases 256 - idx
@@ -634,13 +641,13 @@ func first(a, _ []byte) []byte { return a }
 //@     decreases 256 - idx
 
 //@ func maximum
-//@   requires ref.pointer == nil || okRef(ref)
-//@   requires HeapOKN()
+//@   requires liveRef(ref)
+//@   requires HeapOKN() && LinkedLive()
 //@   ensures[nil_iff_empty] (result == nil) == (ref.pointer == nil)
 //@   ensures[leaf] implies(result != nil, inT(result) && atype(result) == leafT())
 //@   assigns nothing
 //@   loop 1 (ref)
-//@     invariant ref.pointer == nil || okRef(ref)
+//@     invariant liveRef(ref)
 //@   loop 2 (idx)
 //@     invariant 0 - 1 <= idx && idx <= 255 && cntNZ(n48.keys, 256) == cntNZ(n48.keys, idx + 1)
 //@     decreases idx + 1
